@@ -14,7 +14,8 @@ RULE = (
     'Round trip. Hypothesis draws a population mixing plain, multizone (1..82 '
     'zones) and matrix lights (1x1 .. 16x4 / 8x8) with arbitrary raw state '
     '(every component anywhere in 0..65535 incl. the edges, power on/off) '
-    'and names from a hostile-string strategy (token vocabulary, braces, '
+    'and names from a hostile-string strategy (whole keywords such as all / '
+    'default / zone, token vocabulary, braces, '
     '#, quotes excluded, line breaks excluded), plus a second arbitrary '
     'state for replay time. ScriptSnapshot().generate(None).text - and the '
     'file WebApp.snapshot() writes - is captured in state 1, the devices are '
@@ -44,8 +45,17 @@ def color():
                      st.one_of(st.integers(1500, 9000), raw_value)).map(list)
 
 
+# labels that are, as a whole, a word of the language
+WORD_NAMES = ['all', 'default', 'group', 'location', 'zone', 'row', 'column',
+              'begin', 'end', 'and', 'as', 'on', 'off', 'set', 'stage', 'get',
+              'define', 'hue', 'K', 'H', 'S', 'B', 'time', 'not', 'or', 'with',
+              'in', 'raw', 'repeat', 'if', '8:00', '5', '-1', 'x']
+
+
 @st.composite
 def names(draw, trailing_backslash_ok):
+    if draw(st.integers(0, 4)) == 0:
+        return draw(st.sampled_from(WORD_NAMES))
     parts = draw(st.lists(st.one_of(
         st.sampled_from(VOCAB),
         st.characters(blacklist_characters='"' + LINE_BREAKS,
